@@ -25,6 +25,9 @@ type c12Op struct {
 	Muts []string `json:"muts,omitempty"` // stage: mutation operators applied to the last staged spec
 	Ref  string   `json:"ref,omitempty"`  // tamper: which ref
 	To   string   `json:"to,omitempty"`   // tamper: ancestor | unrelated | delete | other-ref
+	// Fault (apply only): the k-th storage call Apply makes returns an error (0: none;
+	// beyond the number of calls Apply makes: no effect)
+	Fault int `json:"fault,omitempty"`
 }
 
 type c12Case struct {
@@ -49,6 +52,10 @@ func genC12(rt *rapid.T) c12Case {
 				} else {
 					op.Muts = append(op.Muts, rapid.SampledFrom(c12StageOps).Draw(rt, "mut"))
 				}
+			}
+		case "apply":
+			if rapid.IntRange(0, 3).Draw(rt, "faulty") == 0 {
+				op.Fault = rapid.IntRange(1, 45).Draw(rt, "faultat")
 			}
 		case "tamper":
 			op.Ref = rapid.SampledFrom([]string{policy.PolicyRef, policy.PolicyStagingRef}).Draw(rt, "tref")
@@ -90,6 +97,7 @@ func runC12(t *testing.T, s *kit.Session, c c12Case) *kit.Failure {
 	hasStaged := false
 	applies, tampered, rootChanges := 0, 0, 0
 	pushN := 0
+	faultedApplies := 0
 	for i, op := range c.Ops {
 		chainBefore, err := kit.WalkChain(st, kit.RSLRef)
 		if err != nil {
@@ -121,7 +129,19 @@ func runC12(t *testing.T, s *kit.Session, c c12Case) *kit.Failure {
 				staged, hasStaged = next, true
 			}
 		case "apply":
-			opErr = policy.Apply(ctx, st, false)
+			if op.Fault > 0 {
+				// a storage failure at one step of Apply: whatever it returns, the
+				// invariants below hold (a failed Apply moves nothing and records nothing)
+				fs := kit.NewFaultStore(st)
+				fs.FailAt = op.Fault
+				opErr = policy.Apply(ctx, fs, false)
+				rsl.VerifResetCache()
+				if fs.Injected {
+					faultedApplies++
+				}
+			} else {
+				opErr = policy.Apply(ctx, st, false)
+			}
 		case "discard":
 			opErr = policy.Discard(st)
 		case "tamper":
@@ -271,6 +291,9 @@ func runC12(t *testing.T, s *kit.Session, c c12Case) *kit.Failure {
 	if applies >= 2 {
 		classes = append(classes, "two_or_more_applies")
 	}
+	if faultedApplies > 0 {
+		classes = append(classes, "apply_with_storage_fault")
+	}
 	if tampered > 0 {
 		classes = append(classes, "tampering")
 	}
@@ -331,7 +354,7 @@ func TestC12(t *testing.T) {
 		}
 		return
 	}
-	s.SetRule("two layers. Storer layer (in-memory Storer): rapid sequences of 2-12 operations {State.Commit of an edited policy state (17 edit operators: rule change, version bumps/lowerings, root principal added / rotated / replaced and signed by old, new-only, foreign or no keys, rule file re-signed by an untrusted key or unsigned, delegated file added well or badly signed / dropped / orphaned), policy.Apply, policy.Discard, tampering with refs/gittuf/policy or policy-staging (ancestor, unrelated commit, the other ref, delete), an authorised push to main, an unrelated entry}; after every step: the policy ref moves only in a successful Apply, to the staging tip, a descendant of the previous policy tip, with exactly one policy entry naming it; Apply fails and changes nothing when a ref disagrees with its latest entry; Discard leaves staging equal to policy; after every successful Apply LoadCurrentState succeeds and a push by the newly authorised principal verifies. API layer (real repository through experimental/gittuf): InitializeRoot, root and rule-file key / threshold / rule / global-rule / hook edits, signing, StagePolicy, ApplyPolicy, DiscardPolicy by signers inside and outside the role; a root-of-trust change by a non-root signer must fail with ErrUnauthorizedKey and change nothing; hooks run for a signer are exactly those assigned to that signer's principal. Non-trivial: >=2 successful applies with a root change between them, or a tampering step")
+	s.SetRule("two layers. Storer layer (in-memory Storer): rapid sequences of 2-12 operations {State.Commit of an edited policy state (17 edit operators: rule change, version bumps/lowerings, root principal added / rotated / replaced and signed by old, new-only, foreign or no keys, rule file re-signed by an untrusted key or unsigned, delegated file added well or badly signed / dropped / orphaned), policy.Apply (one in four with the k-th storage call failing), policy.Discard, tampering with refs/gittuf/policy or policy-staging (ancestor, unrelated commit, the other ref, delete), an authorised push to main, an unrelated entry}; after every step: the policy ref moves only in a successful Apply, to the staging tip, a descendant of the previous policy tip, with exactly one policy entry naming it; Apply fails and changes nothing when a ref disagrees with its latest entry; Discard leaves staging equal to policy; after every successful Apply LoadCurrentState succeeds and a push by the newly authorised principal verifies. API layer (real repository through experimental/gittuf): InitializeRoot, root and rule-file key / threshold / rule / global-rule / hook edits, signing, StagePolicy, ApplyPolicy, DiscardPolicy by signers inside and outside the role; a root-of-trust change by a non-root signer must fail with ErrUnauthorizedKey and change nothing; hooks run for a signer are exactly those assigned to that signer's principal. Non-trivial: >=2 successful applies with a root change between them, or a tampering step")
 	kit.Campaign(s, t, "storer", "storer", s.Budget(6_000, 150_000), genC12, run)
 	kit.Campaign(s, t, "api", "api", s.Budget(32, 600), genC12API, api)
 }
